@@ -77,7 +77,7 @@ def _work(args):
                 ref = rng.choice([None, 'FEW010 BKN035', 'NCD', ''])
                 origin = rng.choice([None, 'Mock data', 'LSZH 291650Z'])
                 fmts = rng.choice([None, 'png', ['png'], ['png', 'pdf'], []])
-                stem = os.path.join(tmp, f'p{k}_{j}') if rng.random() < 0.8 else None
+                stem = os.path.join(tmp, rng.choice([f'p{k}_{j}', f'LSGG_2024.06.{k % 28 + 1:02d}_{j}', f'v2.0.{j}_diag{k}'])) if rng.random() < 0.8 else None
                 listing_before = set(os.listdir(tmp))
                 try:
                     diagnostic(chunk, upto=upto, show_ceilos=show_ceilos, ref_metar=ref, ref_metar_origin=origin,
